@@ -102,6 +102,16 @@ func (cache *StorageCache) Save(root common.Hash) error {
 
 // updateTrie writes cached storage modifications into storage trie.
 func (cache *StorageCache) Update(root common.Hash) (common.Hash, error) {
+	if root == (common.Hash{}) {
+		// nothing has ever been written to this trie, so there is nothing to delete from it. A pending
+		// deletion is what an undone first write leaves behind: it must not turn the zero root into the
+		// root of an empty trie
+		for key, value := range cache.dirty {
+			if len(value) == 0 {
+				delete(cache.dirty, key)
+			}
+		}
+	}
 	if root == (common.Hash{}) && len(cache.dirty) == 0 {
 		return common.Hash{}, nil
 	}
